@@ -413,13 +413,16 @@ func (m *Model) Apply(op Op, obs *Obs, post []Msg) string {
 					afterDead++
 				}
 			}
-			minKeep := beforeDead
-			if minKeep > m.Cfg.DLQMaxDepth {
-				minKeep = m.Cfg.DLQMaxDepth
+			// a depth prune trims the DLQ down to the newest max_depth rows, never below: if a dead row that is not
+			// eligible by age disappeared, at least max_depth dead rows must remain
+			depthOnly := 0
+			for _, it := range gone {
+				if it.State == Dead && !(m.Cfg.DLQMaxAge > 0 && it.ReceivedAt <= now-int64(m.Cfg.DLQMaxAge)) {
+					depthOnly++
+				}
 			}
-			// age-based removals may go below the depth floor; only complain when no age rule is configured
-			if afterDead < minKeep && m.Cfg.DLQMaxAge <= 0 {
-				return fmt.Sprintf("dlq depth prune removed too many: %d dead left, depth limit %d", afterDead, m.Cfg.DLQMaxDepth)
+			if depthOnly > 0 && afterDead < m.Cfg.DLQMaxDepth {
+				return fmt.Sprintf("dlq depth prune removed too many: %d dead left (of %d), depth limit %d", afterDead, beforeDead, m.Cfg.DLQMaxDepth)
 			}
 		}
 	}
